@@ -113,6 +113,24 @@ inline std::vector<double> gen_x(Rng& rng, int N, int style)
 		}
 		x[i] = xn;
 	}
+	// a regular grid with local refinement: m consecutive knots moved into the interval before them, so that the first and the last interval (and the mean
+	// spacing) are still those of the regular grid (seeded change C01-r7m2 took such tables for equidistant and computed the interval index directly)
+	if(style % N_XSTYLES == 0 && N >= 7 && rng.coin(0.3))
+	{
+		int m = rng.irange(2, std::min(20, N - 4)), j = rng.irange(1, N - 3 - m);
+		std::vector<double> frac(m);
+		for(auto& f : frac)
+			f = rng.uni(0.05, 0.95);
+		std::sort(frac.begin(), frac.end());
+		bool ok = true;
+		std::vector<double> moved = x;
+		for(int k = 0; k < m; k++)
+			moved[j + 1 + k] = x[j] + frac[k] * (x[j + 1] - x[j]);
+		for(int i = 1; i < N; i++)
+			ok = ok && (moved[i] - moved[i - 1] >= 64 * ulp(std::max(std::fabs(moved[i]), std::fabs(moved[i - 1]))));
+		if(ok)
+			x = moved;
+	}
 	return x;
 }
 
